@@ -422,6 +422,11 @@ func (m *Manager) FlushMemTables() error {
 	m.flushMu.Lock()
 	defer m.flushMu.Unlock()
 
+	// Close holds the flush lock while it closes the WAL and the SSTables
+	if m.closed.Load() {
+		return ErrStorageClosed
+	}
+
 	// Track operation
 	m.stats.TrackOperation(stats.OpFlush)
 
@@ -628,6 +633,13 @@ func (m *Manager) Close() error {
 	if m.closed.Swap(true) {
 		return nil // Already closed
 	}
+
+	// A background flush may be running: it appends to the SSTable list and
+	// switches the WAL. Wait for it and keep later flushes and readers out
+	m.flushMu.Lock()
+	defer m.flushMu.Unlock()
+	m.mu.Lock()
+	defer m.mu.Unlock()
 
 	// Close the WAL using atomic access
 	currentWAL := m.getWAL()
